@@ -30,6 +30,13 @@ pub struct Program {
     pub db: String,
     pub clients: Vec<Vec<Op>>,
     pub nodes: usize,
+    /// scenario `legacy` (db = "l"): the strategy the database was created with before its metadata file
+    /// went missing (a data directory written by a release that had no metadata file)
+    #[serde(default)]
+    pub legacy_strategy: String,
+    /// scenario `legacy`: the node was stopped with SIGINT (else killed)
+    #[serde(default)]
+    pub legacy_clean_stop: bool,
 }
 
 const KEYS: [&str; 2] = ["ka", "kb"];
@@ -63,17 +70,23 @@ fn gen(rng: &mut Rng, scenario: &str) -> Program {
             let a = gen_ops(rng, na, &mut uniq, false);
             let nb = rng.range(1, 3) as usize;
             let b = gen_ops(rng, nb, &mut uniq, false);
-            Program { db: "n".into(), clients: vec![a, b], nodes: 1 }
+            Program { db: "n".into(), clients: vec![a, b], nodes: 1, legacy_strategy: String::new(), legacy_clean_stop: false }
         }
         "replicated" => {
             let na = rng.range(1, 6) as usize;
             let a = gen_ops(rng, na, &mut uniq, false);
-            Program { db: "n".into(), clients: vec![a], nodes: rng.range(2, 3) as usize }
+            Program { db: "n".into(), clients: vec![a], nodes: rng.range(2, 3) as usize, legacy_strategy: String::new(), legacy_clean_stop: false }
+        }
+        "legacy" => {
+            let na = rng.range(1, 6) as usize;
+            let a = gen_ops(rng, na, &mut uniq, true);
+            let strat = ["none", "arbiter", "newer", ""][rng.below(4) as usize].to_string();
+            Program { db: "l".into(), clients: vec![a], nodes: 1, legacy_strategy: strat, legacy_clean_stop: rng.chance(1, 2) }
         }
         _ => {
             let na = rng.range(1, 6) as usize;
             let a = gen_ops(rng, na, &mut uniq, true);
-            Program { db: if rng.chance(1, 4) { "$admin".into() } else { "n".into() }, clients: vec![a], nodes: 1 }
+            Program { db: if rng.chance(1, 4) { "$admin".into() } else { "n".into() }, clients: vec![a], nodes: 1, legacy_strategy: String::new(), legacy_clean_stop: false }
         }
     }
 }
@@ -179,7 +192,7 @@ fn sequential(w: &World, dbs: &Arc<Databases>, prog: &Program, out: &mut Outcome
         if stale {
             out.stale_writes += 1;
         }
-        let shape = format!("{}:{}{}", if ver.is_some() { if stale { "stale-versioned" } else { "versioned" } } else { "plain" }, if snapshotted { "after-snapshot" } else { "no-snapshot" }, if prog.db == "$admin" { ":admin-db" } else { "" });
+        let shape = format!("{}:{}{}", if ver.is_some() { if stale { "stale-versioned" } else { "versioned" } } else { "plain" }, if snapshotted { "after-snapshot" } else { "no-snapshot" }, if prog.db == "$admin" { ":admin-db" } else if prog.db == "l" { ":restored-without-metadata" } else { "" });
         match &resp {
             Resp::Set { value, .. } => {
                 let stored = after.as_ref().map(|a| a.1.clone()).unwrap_or_default();
@@ -363,6 +376,53 @@ fn execute(prog: Program, scenario: String) -> Outcome {
         out.setup = Err("setup_unstable".into());
         return out;
     }
+    let dbs = if scenario == "legacy" {
+        // a database restored without metadata: created (with whatever strategy), persisted, the node
+        // stopped, and the data directory is one that has no metadata file for it
+        {
+            let mut a = Session::admin(&dbs);
+            let created = if prog.legacy_strategy.is_empty() { a.exec("create-db l tok") } else { a.exec(&format!("create-db l tok {}", prog.legacy_strategy)) };
+            if created.resp.is_err() || a.exec("use-db l tok").resp.is_err() {
+                return out;
+            }
+            for k in KEYS.iter() {
+                a.exec(&format!("set {} p0", k));
+                a.exec(&format!("set {} p1", k));
+            }
+            a.exec("snapshot false");
+            if !w.declutter_tick(0, 10_000) {
+                out.setup = Err("setup_unstable".into());
+                return out;
+            }
+        }
+        if prog.legacy_clean_stop {
+            w.sigint(0);
+            if !w.wait_exit(0, 20_000) {
+                out.setup = Err("setup_unstable".into());
+                return out;
+            }
+        } else {
+            w.kill(0);
+        }
+        let idx = w.nodes[0].idx;
+        let removed = kernel::with(|k| k.nodes[idx as usize].disk.unlink("dbs/l-nun.madadata"));
+        if !removed {
+            out.setup = Err("harness: metadata file of the legacy database not found".into());
+            return out;
+        }
+        kernel::with(|k| k.fault("metadata_file_absent"));
+        w.boot(0, "");
+        if !w.wait_primary(0, 10_000) {
+            out.setup = Err("setup_unstable".into());
+            return out;
+        }
+        match w.dbs(0) {
+            Some(d) => d,
+            None => return out,
+        }
+    } else {
+        dbs
+    };
     out.setup = Ok(());
     match scenario.as_str() {
         "concurrent" => concurrent(&w, &dbs, &prog, &mut out),
@@ -394,13 +454,13 @@ impl Property for C19 {
         "C19"
     }
     fn scenarios(&self) -> Vec<(&'static str, u32)> {
-        vec![("sequential", 2), ("concurrent", 2), ("replicated", 1)]
+        vec![("sequential", 2), ("concurrent", 2), ("replicated", 1), ("legacy", 1)]
     }
     fn budget(&self) -> (u64, u64) {
         (100_000, 2_000_000)
     }
     fn rule(&self) -> &'static str {
-        "1-6 plain and versioned writes (versions 0-5: below, at and above the current one, every value unique) to 1-2 keys of a database created with the newer strategy (or of $admin): sequential with background snapshots in between (reply = stored value = this write's value, no refusal, version never decreases, watcher notified iff the value changed); from two concurrent direct sessions under lock-level interleavings (history linearizable against 'store your value or keep the current one, reply with what is stored'); and replicated from the primary to 1-2 secondaries (replicas hold the primary's values at quiescence). Non-trivial: at least one stale versioned write (sequential/replicated) or two writes to one key overlapped (concurrent). distinct = distinct (program, task-switch sequence)."
+        "1-6 plain and versioned writes (versions 0-5: below, at and above the current one, every value unique) to 1-2 keys of a database created with the newer strategy (or of $admin, or -- scenario legacy -- of a database created with any strategy, persisted, and restored after a kill / clean stop from a data directory that has no metadata file for it): sequential with background snapshots in between (reply = stored value = this write's value, no refusal, version never decreases, watcher notified iff the value changed); from two concurrent direct sessions under lock-level interleavings (history linearizable against 'store your value or keep the current one, reply with what is stored'); and replicated from the primary to 1-2 secondaries (replicas hold the primary's values at quiescence). Non-trivial: at least one stale versioned write (sequential/replicated) or two writes to one key overlapped (concurrent). distinct = distinct (program, task-switch sequence)."
     }
     fn assumptions(&self) -> Vec<String> {
         vec!["between overlapping writes either may win; 'most recently issued' is asserted for non-overlapping writes issued on one node; replica versions are not compared here (C04)".into()]
